@@ -200,12 +200,38 @@ def _match_cases(ctx, n):
     return cases, meta, tests
 
 
+def _fits_cases(ctx, n):
+    """the Coq post-condition [fitsb] and the class predicate [fewer_dims_than_template] agree with the harness's
+    independent verdict (exact row-space oracle, bounds, spec_* statements) on schedules the real search yields --
+    the same predicate is the theorem's hypothesis and the L2 classifier"""
+    rng = ctx.rng
+    cases, meta = [], []
+    for i in range(n):
+        tp, sp, fam = D.gen_sched_case(rng, max_points=100000)
+        T, s = D.mk_template(tp), D.mk_schedule(sp)
+        py, cq, cdesc = D.gen_checks(rng, len(sp))
+        res = D.run_backtrack(T, s, py, cap=40)
+        if res is None:
+            continue
+        for r in res[0][:3]:
+            fewer = r.num_dims < T.num_dims
+            fits = (not fewer) and not fits_failures(T, r, [], tp, cdesc)
+            cases.append(f"({D.coq_tmpl(T)}, {D.coq_sched(r)}, {cq}, {boollit(fits)}, {boollit(fewer)})")
+            meta.append(("fitsb", tp, D.plain(r), cdesc))
+            ctx.count({"op": "fitsb", "template": tp, "result": D.plain(r), **cdesc, "fits": fits, "fewer": fewer}, True, f"fits{tp}{D.plain(r)}{cdesc}", f"fitsb-{fits}-{fewer}")
+    test = ("fun c : tmpl * sched * list (tmpl -> sched -> bool) * bool * bool => match c with (T, r, ch, f, w) => "
+            "Bool.eqb (fewer_dims_than_template T r) w && (w || Bool.eqb (fitsb matches ch T r) f) end")
+    return {"fits": cases}, {"fits": meta}, {"fits": test}
+
+
 def correspondence(ctx):
     dis = _enum_cases(ctx)
     cases, meta, tests = _random_pairs(ctx, ctx.n(400, 6000))
     c2, m2, t2 = _match_cases(ctx, ctx.n(150, 3000))
     cases.update(c2), meta.update(m2), tests.update(t2)
-    dis += _run_cases("c16", "From Snax Require Import Base.Prelude Model.C03Schedule Model.C16Matcher.", cases, meta, tests,
+    c3, m3, t3 = _fits_cases(ctx, ctx.n(120, 2000))
+    cases.update(c3), meta.update(m3), tests.update(t3)
+    dis += _run_cases("c16", "From Snax Require Import Base.Prelude Model.C03Schedule Model.C16Matcher Model.C16Fits.", cases, meta, tests,
                       chunk=200, nfiles=ctx.n(3, 12))
     return dis
 
